@@ -16,6 +16,7 @@ from pulser import Pulse
 seqgen.INT_IDS_RATE = 0.2
 seqgen.SCALAR_TARGET_RATE = 0.25
 seqgen.SHORTHAND_RATE = 0.35
+seqgen.UNBUILDABLE_RATE = 0.02
 
 
 def indep_rise(ch):
@@ -76,6 +77,10 @@ class SeqProp(PropCheck):
     def coq_item(self, case, run):
         if any(o["op"] == "config_slm" for o in case["ops"]):
             return None  # oracle-only case (SLM mask: not in the Coq model)
+        if any(isinstance(o.get("duration"), float) for o in case["ops"]):
+            return None  # oracle-only case (non-integer duration: the model's durations are integers)
+        if any((o.get("pulse") or {}).get("unbuildable") for o in case["ops"]):
+            return None  # oracle-only case (a Pulse that cannot be built never reaches the model)
         return seqcoq.case_terms(case, run)
 
     def cases_file(self, items):
